@@ -2,7 +2,7 @@
 From Coq Require Import List Arith Bool.
 From AV Require Import Base.Util Spec.Lang Spec.FA Spec.Regex Model.Decide
                        Model.RegexLex Model.RegexParse Model.RegexBuild Model.RegexCmp
-                       Proofs.RegexFrag Proofs.RegexBuild Proofs.RegexParse Proofs.RegexCompile.
+                       Proofs.RegexFrag Proofs.RegexBuild Proofs.RegexParse Proofs.RegexCompile Proofs.RegexTotal.
 Import ListNotations.
 
 (* what passes regex.validate goes through the whole front end of NFA.from_regex (lexer,
@@ -19,6 +19,17 @@ Proof.
     try (intro H; inversion H; reflexivity); apply compile_re_err.
 Qed.
 Print Assumptions C11_validated_compiles.
+
+(* end to end: what validates compiles to an NFA - with the derived alphabet provided the
+   expression has no lone-brace literal (codes 11/12, outside the documented syntax), with an
+   explicit alphabet provided it is not reserved and contains the literals of the expression *)
+Theorem C11_validated_from_regex_ok : forall cs, validate cs = Ok tt ->
+  exists r, parse cs = Ok r /\
+    ((forall a, In a (re_syms r) -> is_reserved a = false) -> exists m, compile cs None = Ok m) /\
+    (forall sigma, existsb is_reserved sigma = false -> (forall a, In a (re_syms r) -> In a sigma) ->
+                   exists m, compile cs (Some sigma) = Ok m).
+Proof. exact validated_from_regex_ok. Qed.
+Print Assumptions C11_validated_from_regex_ok.
 
 Theorem C11_validated_compiles_tokens : forall ts, ts <> [] -> validate_tokens ts = Ok tt ->
   exists r, parse_tokens ts = Ok r.
